@@ -78,10 +78,59 @@ def benign():
         rows.append("| %s | %s | %s: %s | %s | %s |" % (m["id"], m["property"], ", ".join(m.get("files", [])), ", ".join("`%s`" % f for f in m.get("functions_touched", [])[:6]), "**YES**" if m.get("alarm") else "no", (summ.split(" audited")[-1].strip() + (" (" + note + ")" if note else "")).replace("|", "\\|")[:200]))
     return "\n".join(rows)
 
+TRIAGE = {
+    # survivor id -> why it is not a violation of the properties it was tested against (written by hand after reading the diff)
+    "4cfa15f0ca": "**blind spot, closed**: `DecodedMap::get_original_function_name`, Hermes arm `line != 0` -> `== 0`; the `DecodedMap` dispatch layer was not driven by any harness op; C14's ops now ask every question through `decode_slice` + `DecodedMap` as well (C04/C08/C17 ops likewise) and C14 reports this mutant with a concrete input; `Tie/Index.lean` `gen_c14_dispatch_hermes` proves the arm on the translated code",
+    "2e3d44041f": "equivalent for the public API: `add` passes `!0` as the *old* source id recorded in `sources_mapping`, which only `rewrite` (through `add_token`) reads; the translation tie `tie_add` does break, which widens the search and is recorded, not reported",
+    "7f65f8859e": "equivalent on position-ordered slices (every slice the crate passes is one: C04 second sentence, `decode_index` sorts sections); `tie_glb` breaks -> widened search finds no input",
+    "648c022fbd": "file (unbundle) RAM bundles: outside C20, which is about indexed bundles",
+    "714d459493": "file (unbundle) RAM bundles: outside C20",
+    "cfd1f9fff3": "file (unbundle) RAM bundles, file-system dependent: outside C20",
+    "ec0e12e4b4": "equivalent: `break` -> `continue` in the second loop of `get_line_slice` only skips work (the guard stays false for the rest of the line)",
+    "10235c965f": "equivalent: initial `(line, !0, !0)` offsets of `RevTokenIter`; only the `last_byte_offset == !0` test reads them and the first element decides it",
+    "eeba185f5a": "equivalent (as 10235c965f, other tuple position)",
+    "8785fc1fd2": "equivalent (as 10235c965f)",
+    "543de7a880": "equivalent: `resize` to the current length is a no-op",
+    "e184c5f3ef": "file (unbundle) RAM bundles: outside C20",
+    "1d60d9147b": "file (unbundle) RAM bundles: outside C20",
+    "ffce853adc": "equivalent: `break` -> `continue` in a column-scanning loop of `RevTokenIter::next`; once the guard `idx >= col` holds it holds for the rest of the line and nothing is added",
+    "6812f09c9a": "`split_path` is used by `find_common_prefix` (the `~` option of `rewrite`) only, not by `make_relative_path`: outside C19; C09 holds for explicit prefixes and for whatever `~` computes (the stripped prefix is part of its statement)",
+}
+
+
+def automut():
+    rows = []
+    tot = {}
+    surv = []
+    for lp in sorted(glob.glob(os.path.join(HERE, "automut", "log-*.jsonl"))):
+        for line in open(lp):
+            r = json.loads(line)
+            tot[r["outcome"]] = tot.get(r["outcome"], 0) + 1
+            if r["outcome"] == "SURVIVED":
+                surv.append(r)
+    n = sum(tot.values())
+    head = "%d operator mutants generated inside the anchored functions: %d did not compile, %d were killed by the crate's own 48 tests, **%d passed the suite**; of those %d were reported by a quick check of a property anchored on the mutated function and %d were not:" % (
+        n, tot.get("does-not-compile", 0), tot.get("killed-by-suite", 0), tot.get("caught", 0) + tot.get("SURVIVED", 0), tot.get("caught", 0), tot.get("SURVIVED", 0))
+    rows.append(head)
+    rows.append("")
+    rows.append("| Survivor | Where | Mutation | Checks run | Triage |")
+    rows.append("|---|---|---|---|---|")
+    seen = set()
+    for r in surv:
+        if r["id"] in seen:
+            continue
+        seen.add(r["id"])
+        why = TRIAGE.get(r["id"])
+        if why is None and r["file"] == "src/utils.rs" and r["fn"] == "is_abs_path":
+            why = "`is_abs_path` is used by `find_common_prefix` (the `~` option of `rewrite`) only, not by `make_relative_path`: outside C19, and C09 holds for whatever prefix `~` computes"
+        rows.append("| %s | `%s::%s` | `%s` -> `%s` in `%s` | %s | %s |" % (r["id"], r["file"].replace("src/", ""), r["fn"], r["was"].strip(), r["now"].strip(), r["line"][:60].replace("|", "\\|"), " ".join(sorted(r.get("checks", {}).keys())), why or "UNTRIAGED"))
+    return "\n".join(rows)
+
+
 def main():
     p = os.path.join(HERE, "DESIGN.md")
     s = open(p).read()
-    for name, fn in (("status", status), ("findings", findings), ("seeds", seeds), ("ties", ties), ("benign", benign)):
+    for name, fn in (("status", status), ("findings", findings), ("seeds", seeds), ("ties", ties), ("benign", benign), ("automut", automut)):
         a, b = "<!-- BEGIN %s -->" % name, "<!-- END %s -->" % name
         if a in s and b in s:
             s = s[: s.index(a) + len(a)] + "\n" + fn() + "\n" + s[s.index(b):]
